@@ -67,7 +67,21 @@ fn generate(cli: &Cli) -> Vec<Case> {
             client_addr: mk::random_addr(&mut rng).parse().expect("addr"),
             claimed: mk::ident(&mut rng, "claimed"),
             authed: mk::ident(&mut rng, "vouched"),
-            props: mk::props(&mut rng, nprops),
+            props: {
+                let mut p = mk::props(&mut rng, nprops);
+                // realistic sizes now and then: a signed textures property is ~1.5 kB, several of
+                // them push the cookie beyond 5 KiB
+                if i % 7 == 3 {
+                    for q in p.iter_mut() {
+                        q.value = vp_common::report::hex(&rng.bytes(900));
+                        q.signature = Some(vp_common::report::hex(&rng.bytes(340)));
+                    }
+                    while p.len() < 3 {
+                        p.push(Prop { name: format!("extra{}", p.len()), value: vp_common::report::hex(&rng.bytes(900)), signature: Some(vp_common::report::hex(&rng.bytes(340))) });
+                    }
+                }
+                p
+            },
             targets: mk::targets(&mut rng, nt),
             pick: rng.below(5) as usize,
             presented_session: rng.chance(1, 3),
